@@ -258,9 +258,9 @@ def tapeEv (g : List Int) : List Int := [g.foldl (· + ·) 0]
 
 def tapeHeap : Heap := fun o =>
   match o with
-  | 0 => ⟨[1, 2, 3], some [6]⟩
-  | 1 => ⟨[4, 5, 6], none⟩
-  | _ => ⟨[], none⟩
+  | 0 => ⟨[1, 2, 3], some [6], none⟩
+  | 1 => ⟨[4, 5, 6], none, none⟩
+  | _ => ⟨[], none, none⟩
 
 def tapeState : LState := { st := { heap := tapeHeap, next := 2 }, pop := [0, 1] }
 
@@ -269,7 +269,7 @@ def tapeStateG : LState :=
   { tapeState with
     log := [(0, 1)]
     shown := [0, 1]
-    shownObj := [(0, ⟨[1, 2, 3], some [6]⟩), (1, ⟨[4, 5, 6], some [15]⟩)]
+    shownObj := [(0, ⟨[1, 2, 3], some [6], none⟩), (1, ⟨[4, 5, 6], some [15], none⟩)]
     evals := [(0, 1)] }
 
 /-- three generations of `eaSimple`: both offspring are mutated in generation 1, none in generation 2, the first
